@@ -167,6 +167,37 @@ Fixpoint enum (fuel : nat) (w : world) (prefix : list N) (i : id) {struct fuel} 
     end
   end.
 
+(* the entries the registration walk of create_copied_sub_element adds (register_subtree in Tree/Ops.v), in walk
+   order: (path, element) for the path index, (text, reference) for the referrer lists *)
+Fixpoint reg_entries (fuel : nat) (w : world) (cur : list N) (i : id) {struct fuel}
+  : option (list (list N * id) * list (list N * id)) :=
+  match fuel with
+  | O => None
+  | S f =>
+    match w_nodes w i with
+    | None => None
+    | Some n =>
+      let p := cur ++ seg_n w n in
+      let own := if identifiable_n w n then [(p, i)] else [] in
+      let rf := if isref (n_type n) then match cdata_of n with Some (DString r) => [(r, i)] | _ => [] end else [] in
+      match
+        (fix kids (l : list citem) : option (list (list N * id) * list (list N * id)) :=
+           match l with
+           | [] => Some ([], [])
+           | CElem c :: rest =>
+             match reg_entries f w p c, kids rest with
+             | Some (a1, b1), Some (a2, b2) => Some (a1 ++ a2, b1 ++ b2)
+             | _, _ => None
+             end
+           | CData _ :: rest => kids rest
+           end) (n_content n)
+      with
+      | Some (a, b) => Some (own ++ a, rf ++ b)
+      | None => None
+      end
+    end
+  end.
+
 Definition enum_model (w : world) (x : model) : option (list (id * list N)) :=
   enum (S (N.to_nat (w_next w))) w [] (m_root x).
 
